@@ -51,7 +51,22 @@ pub const OW_BARRIER: usize = 10;
 pub const OW_BURST: usize = 11;
 pub const OW_PANIC: usize = 12;
 pub const OW_ROOT_SET: usize = 13;
-pub const OW_N: usize = 14;
+pub const OW_BUILDER: usize = 14;
+pub const OW_CONVERT: usize = 15;
+pub const OW_ZST: usize = 16;
+pub const OW_N: usize = 17;
+
+/// What kind of object to allocate next: a fixed kind, or a parameterised family drawn per use.
+#[derive(Clone, Copy, Debug, PartialEq, Eq, serde::Serialize, serde::Deserialize)]
+pub enum KindChoice {
+    Fixed(Kind),
+    Slice,
+    Swh,
+    /// any entry of the layout family
+    Lay,
+    /// entries of one class of the layout family: 0 sized, 1 slice/str, 2 slice-with-header
+    LayClass(u8),
+}
 
 #[derive(Clone, Debug, serde::Serialize, serde::Deserialize)]
 pub struct GenCfg {
@@ -64,7 +79,9 @@ pub struct GenCfg {
     pub w_event: [u32; EW_N],
     pub w_cb: [u32; 5],
     pub w_op: [u32; OW_N],
-    pub kinds: Vec<(Kind, u32)>,
+    pub kinds: Vec<(KindChoice, u32)>,
+    /// chance out of 16 that a stored pointer is converted first (C19)
+    pub conv_bias: u32,
     pub w_call: [u32; 5],
     pub w_marked: [u32; 3],
     pub step: StepPolicy,
@@ -220,7 +237,49 @@ impl Gen {
 
     fn fresh_kind(&mut self) -> Kind {
         let ws: Vec<u32> = self.cfg.kinds.iter().map(|k| k.1).collect();
-        self.cfg.kinds[self.rng.weighted(&ws)].0
+        match self.cfg.kinds[self.rng.weighted(&ws)].0 {
+            KindChoice::Fixed(k) => k,
+            KindChoice::Slice => Kind::Slice { len: self.rng.below(7) as u8 },
+            KindChoice::Swh => Kind::Swh { len: self.rng.below(6) as u8 },
+            KindChoice::Lay => self.lay_kind(None),
+            KindChoice::LayClass(c) => self.lay_kind(Some(c)),
+        }
+    }
+
+    fn lay_kind(&mut self, class: Option<u8>) -> Kind {
+        use crate::lay::{LAYS, LayClass, MAX_LEN};
+        let cands: Vec<usize> = (0..LAYS.len())
+            .filter(|i| match class {
+                None => true,
+                Some(0) => LAYS[*i].class == LayClass::Sized,
+                Some(1) => matches!(LAYS[*i].class, LayClass::Slice | LayClass::Str),
+                Some(_) => LAYS[*i].class == LayClass::Swh,
+            })
+            .collect();
+        let t = cands[self.rng.below(cands.len())];
+        let len = if LAYS[t].class == LayClass::Sized {
+            0
+        } else if self.rng.chance(1, 4) {
+            [0, 1, MAX_LEN][self.rng.below(3)]
+        } else {
+            self.rng.below(MAX_LEN + 1)
+        };
+        // the 4096-aligned element types are big: keep their slices short
+        let len = if LAYS[t].name.contains("4096") { len.min(3) } else { len };
+        Kind::Lay { t: t as u8, len: len as u8 }
+    }
+
+    fn conv_for(&mut self, v: &CbView<'_>, child: Id) -> Conv {
+        if self.rng.below(16) >= self.cfg.conv_bias as usize {
+            return Conv::None;
+        }
+        match v.sh.objs.get(&child).map(|o| o.kind) {
+            Some(Kind::Node) => [Conv::Erase, Conv::Unsize, Conv::Raw, Conv::Weak][self.rng.below(4)],
+            Some(Kind::Field) => [Conv::Raw, Conv::Weak][self.rng.below(2)],
+            Some(Kind::Slice { .. }) | Some(Kind::Swh { .. }) => [Conv::Thin, Conv::Thin, Conv::Weak][self.rng.below(3)],
+            Some(_) => [Conv::None, Conv::Weak][self.rng.below(2)],
+            None => Conv::None,
+        }
     }
 
     fn route_for(&mut self, kind: Kind, storing_some: bool) -> Route {
@@ -228,6 +287,8 @@ impl Gen {
             Kind::Node => [Route::Default, Route::WriteUnlock, Route::TryBorrowMut][self.rng.below(3)],
             Kind::Cell => [Route::Default, Route::WriteUnlock][self.rng.below(2)],
             Kind::Once => [Route::Default, Route::GetOrInit][self.rng.below(2)],
+            Kind::Slice { .. } => [Route::Default, Route::ViaThin, Route::ViaRange][self.rng.below(3)],
+            Kind::Swh { .. } => [Route::Default, Route::ViaThin][self.rng.below(2)],
             Kind::Raw => {
                 if storing_some {
                     [Route::BackwardSome, Route::BackwardNone, Route::ForwardSome, Route::ForwardNone][self.rng.below(4)]
@@ -307,7 +368,8 @@ impl Gen {
         let (holder, kind, n) = self.pick_strong_holder(v)?;
         let slot = self.rng.below(n);
         let route = if holder == Holder::Root { Route::Default } else { self.route_for(kind, true) };
-        Some(Op::Link { holder, slot: slot as u8, child, route })
+        let conv = self.conv_for(v, child);
+        Some(Op::Link { holder, slot: slot as u8, child, route, conv })
     }
 
     fn reach_count(v: &CbView<'_>) -> usize {
@@ -458,11 +520,20 @@ impl Gen {
                     let kind = self.fresh_kind();
                     let id = v.sh.next_id;
                     // decide the link now, against the view before the allocation
+                    let conv = if self.rng.below(16) < self.cfg.conv_bias as usize {
+                        match kind {
+                            Kind::Node => [Conv::Erase, Conv::Unsize, Conv::Raw, Conv::Weak][self.rng.below(4)],
+                            Kind::Slice { .. } | Kind::Swh { .. } => Conv::Thin,
+                            _ => Conv::None,
+                        }
+                    } else {
+                        Conv::None
+                    };
                     let link = match self.pick_strong_holder(v) {
                         Some((holder, hk, n)) => {
                             let slot = self.rng.below(n);
                             let route = if holder == Holder::Root { Route::Default } else { self.route_for(hk, true) };
-                            Op::Link { holder, slot: slot as u8, child: id, route }
+                            Op::Link { holder, slot: slot as u8, child: id, route, conv }
                         }
                         None => continue,
                     };
@@ -574,6 +645,43 @@ impl Gen {
                     return Some(Op::Burst { first: v.sh.next_id, n });
                 }
                 OW_PANIC => return Some(Op::Panic),
+                OW_BUILDER => {
+                    let kind = [BKind::Sized, BKind::Swh, BKind::Swh, BKind::Swh, BKind::Slice, BKind::CopySlice, BKind::Str, BKind::StaticSwh][self.rng.below(8)];
+                    let n = self.rng.below(9) as u8;
+                    let stage = match self.rng.below(8) {
+                        0 => BStage::AbandonNew,
+                        1 => BStage::AbandonAfterHeader,
+                        2 | 3 | 4 => BStage::PanicAt(if n == 0 { 0 } else { self.rng.below(n as usize) as u8 }),
+                        5 => BStage::WrongLen([-1i8, 1, 2, -(n as i8)][self.rng.below(4)]),
+                        _ => BStage::Complete,
+                    };
+                    let stage = match (kind, stage) {
+                        (BKind::CopySlice | BKind::Str, BStage::PanicAt(_)) => BStage::WrongLen(1),
+                        (BKind::Sized, BStage::PanicAt(_) | BStage::WrongLen(_)) => BStage::AbandonNew,
+                        (_, s) => s,
+                    };
+                    let first = v.sh.next_id;
+                    if kind == BKind::Swh && stage == BStage::Complete && self.rng.chance(2, 3) {
+                        // link the finished object so that it is later collected like any other
+                        if let Some((holder, hk, ns)) = self.pick_strong_holder(v) {
+                            let slot = self.rng.below(ns);
+                            let route = if holder == Holder::Root { Route::Default } else { self.route_for(hk, true) };
+                            self.queue.push_back(Op::Link { holder, slot: slot as u8, child: first, route, conv: Conv::None });
+                        }
+                    }
+                    return Some(Op::Builder { first, kind, n, stage });
+                }
+                OW_CONVERT => {
+                    let Some(obj) = self.pick_child(v) else { continue };
+                    let n = 1 + self.rng.below(4);
+                    let all = [Conv::Erase, Conv::Unsize, Conv::Raw, Conv::Weak, Conv::Thin];
+                    let chain = (0..n).map(|_| all[self.rng.below(all.len())]).collect();
+                    return Some(Op::Convert { obj, chain });
+                }
+                OW_ZST => {
+                    let sized = self.rng.chance(1, 6);
+                    return Some(Op::Zst { id: v.sh.next_id, a: self.rng.below(7) as u8, sized, via_static: self.rng.chance(1, 2) });
+                }
                 OW_ROOT_SET => {
                     if self.rng.chance(1, 3) {
                         let ar = v.sh.arena(v.a);
@@ -586,11 +694,12 @@ impl Gen {
                     if v.acc.is_empty() || (self.rng.chance(1, 2) && !full) {
                         let id = v.sh.next_id;
                         let kind = self.fresh_kind();
-                        self.queue.push_back(Op::Link { holder: Holder::Root, slot, child: id, route: Route::Default });
+                        self.queue.push_back(Op::Link { holder: Holder::Root, slot, child: id, route: Route::Default, conv: Conv::None });
                         return Some(Op::Alloc { id, kind });
                     }
                     let Some(child) = self.pick_child(v) else { continue };
-                    return Some(Op::Link { holder: Holder::Root, slot, child, route: Route::Default });
+                    let conv = self.conv_for(v, child);
+                    return Some(Op::Link { holder: Holder::Root, slot, child, route: Route::Default, conv });
                 }
                 _ => {}
             }
